@@ -140,6 +140,31 @@ def runBlocks : BState → List (BEnv × Nat) → M BState
   | s, [] => .ok s
   | s, (e, c) :: es => (beginBlock s e).bind (fun o => runBlocks (userMove o.st c) es)
 
+/-- histories that interleave blocks with ACCEPTED admin messages: what one message leaves behind
+    (counters, block rate, inter-policy rate, thresholds) is the start state of the next -/
+inductive Step where
+  | block (e : BEnv) (c : Nat)                              -- BeginBlocker, then traffic
+  | updatePmtp (m : MsgUpdatePmtpParams) (c : Ctx)
+  | modifyRates (m : MsgModifyPmtpRates) (c : Ctx)
+  | updateLP (m : MsgUpdateLPParams)
+  | modifyLP (m : MsgModifyLPRates)
+
+def stepState (s : BState) : Step → M BState
+  | .block e c => (beginBlock s e).map (fun o => userMove o.st c)
+  | .updatePmtp m _ => .ok { s with pm := applyUpdatePmtpParams m s.pm }
+  | .modifyRates m c => .ok { s with pm := applyModifyPmtpRates m c s.pm }
+  | .updateLP m => .ok { s with lp := applyUpdateLPParams m s.lp }
+  | .modifyLP m => .ok { s with lp := applyModifyLPRates m s.lp }
+
+def runSteps : BState → List Step → M BState
+  | s, [] => .ok s
+  | s, st :: rest => (stepState s st).bind (fun s' => runSteps s' rest)
+
+/-- the next height to be processed after a step -/
+def nextH (h : Int) : Step → Int
+  | .block _ _ => h + 1
+  | _ => h
+
 /-- consecutive heights starting at `h`, each block inside the envelope (`EnvOKP`, `PoolsOKP`) -/
 def BlocksOKP (pm : Pmtp) : Int → List (BEnv × Nat) → Prop
   | _, [] => True
